@@ -25,8 +25,13 @@ TECHNIQUE = (
 RULE = (
     "seeded generator by input class (built-in / symbolic / wrapped / custom / mixed / circuit sets / edge: empty, "
     "idle qubits, huge and tiny numbers, shared / duplicated / conflicting definitions, name collisions of the text "
-    "format) x transport (dict+JSON text, path, open file, StringIO); non-trivial = the circuit contains a wrapper, a "
-    "custom gate or a non-numeric parameter; distinct = distinct canonical case strings"
+    "format) x transport (dict+JSON text, path, open file, StringIO); custom gate arguments cover every printing "
+    "family of complex numbers (Python complex with 17-digit / exponent / zero / whole parts, sympy complex numbers, "
+    "complex coefficients of expressions); circuit sets share definitions, or give every circuit its OWN definitions "
+    "under the same gate names (a name is unique within one circuit only), or repeat a circuit; history = several "
+    "unrelated circuits / sets re-using the same gate names are all serialised first, then read back in another "
+    "order, one text twice; non-trivial = the circuit contains a wrapper, a custom gate or a non-numeric parameter; "
+    "distinct = distinct canonical case strings"
 )
 ASSUMPTIONS = [
     "oracle = own structural walker (types, names, nesting, controls, exponents, definitions, qubits) + parameter "
@@ -447,6 +452,10 @@ def consequences(mon, orig, img, rng, found):
         if bad:
             break
         cheap = all(m[0] in ("C", "D") or (m[0] == "P" and isinstance(m[1], int) and abs(m[1]) <= 3) for m in m1)
+        if cheap and any(m[0] == "P" and m[1] < 0 for m in m1) and any(
+                isinstance(p, complex) or (isinstance(p, sympy.Basic) and p.has(sympy.I)) for p in b1.params):
+            cheap = False  # sympy's inverse of a matrix of complex floating-point expressions can hang
+            mon.note("whole-gate matrix not evaluated (negative power over complex parameters)")
         if m1 and cheap and o1.gate.num_qubits <= 3 and not (any(m[0] == "P" for m in m1) and o1.gate.free_symbols):
             try:
                 W1 = o1.gate.matrix
@@ -624,6 +633,19 @@ def _classify_exception(orig_circuits, exc):
     return None
 
 
+_PAIRS = {}  # (id(original), id(image)) -> full key of the judged pair
+_PAIRS_BAD = {}
+_PAIRS_KEEP = {}
+
+
+def _pair_key(o, i):
+    """identity of a judged pair: the two objects and the identities of everything the image holds"""
+    try:
+        return (id(o), id(i), i.n_qubits, tuple(id(op) for op in i.operations), tuple(id(op) for op in o.operations))
+    except Exception:
+        return None
+
+
 def _judge_images(mon, name, origs, imgs, text, exc):
     if exc is not None:
         if exc is _JUDGED_EXC[0]:
@@ -639,12 +661,29 @@ def _judge_images(mon, name, origs, imgs, text, exc):
     rng = _rng_for(text)
     n_bad = 0
     for o, i in zip(origs, imgs):
+        # circuitset_from_dict may build its images through circuit_from_dict: the very same
+        # (original, image) pair of objects has then been judged a moment ago, with every finding reported
+        key = _pair_key(o, i)
+        if key is not None and _PAIRS.get(key[:2]) == key:
+            n_bad += _PAIRS_BAD.get(key[:2], 0)
+            mon.note("image already judged at the nested circuit_from_dict")
+            continue
         found = judge_pair(o, i, rng)
+        bad = 0
         for kind, why, known in found:
             if known is None:
-                n_bad += 1
+                bad += 1
             mon.violation(f"roundtrip-{kind}", f"{why}; original {describe_circuit(o)}", known=known)
         consequences(mon, o, i, rng, found)
+        n_bad += bad
+        if key is not None:
+            if len(_PAIRS) > 200:
+                _PAIRS.clear()
+                _PAIRS_BAD.clear()
+                _PAIRS_KEEP.clear()
+            _PAIRS[key[:2]] = key
+            _PAIRS_BAD[key[:2]] = bad
+            _PAIRS_KEEP[key[:2]] = (o, i)  # keeps both alive: ids are not reused while the entry exists
     if not n_bad:
         mon.ok(name)
 
@@ -1074,12 +1113,14 @@ def place(rng, g, width):
     return g(*GC.rand_qubits(rng, g.num_qubits, max(width, g.num_qubits)))
 
 
-def rand_circuit(rng, nprng, cls, quick=True, defs=None, symbols=None):
+def rand_circuit(rng, nprng, cls, quick=True, defs=None, symbols=None, max_ops=None):
     from orquestra.quantum.circuits import Circuit
 
     max_depth = 3 if quick else 4
     symbols = symbols or GS.symbol_pool(rng, rng.randint(2, 5))
     n_ops = rng.randint(1, 8) if cls != "mixed" else rng.randint(3, 12)
+    if max_ops:
+        n_ops = min(n_ops, rng.randint(1, max_ops))
     ops = []
     for _ in range(n_ops):
         if cls == "builtin":
@@ -1111,7 +1152,7 @@ def rand_circuit(rng, nprng, cls, quick=True, defs=None, symbols=None):
     return Circuit(placed, n_qubits=max(width, span))
 
 
-def rand_namespaced_set(rng, nprng, quick, k, pool=None):
+def rand_namespaced_set(rng, nprng, quick, k, pool=None, max_ops=4):
     """k circuits, each with its OWN custom gate definitions drawn under the same one or two names:
     a gate name is unique within a circuit only (every serialised circuit carries its own definitions),
     so the same name stands for another matrix / parameter list / arity in the next circuit"""
@@ -1120,7 +1161,8 @@ def rand_namespaced_set(rng, nprng, quick, k, pool=None):
     out = []
     for _ in range(k):
         defs = [rand_def(rng, nprng, n) for n in rng.sample(pool, rng.randint(1, len(pool)))]
-        out.append(rand_circuit(rng, nprng, rng.choice(["custom", "custom", "custom", "mixed"]), quick, defs, symbols))
+        out.append(rand_circuit(rng, nprng, rng.choice(["custom", "custom", "custom", "mixed"]), quick, defs, symbols,
+                                max_ops if quick else 2 * max_ops))
     return out
 
 
@@ -1269,7 +1311,7 @@ def run_case(ctx):
         mode = rng.choice(["shared", "shared", "own", "own", "own", "repeat"])
         ctx.mon.note(f"circuitset mode {mode}")
         if mode == "own":
-            cs = rand_namespaced_set(rng, nprng, ctx.quick, rng.randint(2, 4))
+            cs = rand_namespaced_set(rng, nprng, ctx.quick, rng.choice([2, 2, 3, 4] if not ctx.quick else [2, 2, 3]))
             if _names_redefined(cs):
                 ctx.mon.note("circuitset: one gate name, different definitions in different circuits")
         else:
@@ -1298,17 +1340,18 @@ def run_case(ctx):
         how = rng.choice(["dict", "dict", "stringio", "path"])
         pool = rng.sample(_safe_custom_names(), 2)
         objs = []
-        for _ in range(rng.randint(2, 3)):
-            if rng.random() < 0.3:
-                objs.append(rand_namespaced_set(rng, nprng, ctx.quick, 2, pool))
+        for _ in range(rng.choice([2, 2, 3])):
+            if rng.random() < 0.25:
+                objs.append(rand_namespaced_set(rng, nprng, ctx.quick, 2, pool, 2))
             else:
                 defs = [rand_def(rng, nprng, n) for n in rng.sample(pool, rng.randint(1, 2))]
-                objs.append(rand_circuit(rng, nprng, rng.choice(["custom", "custom", "mixed"]), ctx.quick, defs))
-        if rng.random() < 0.3:
+                objs.append(rand_circuit(rng, nprng, rng.choice(["custom", "custom", "mixed"]), ctx.quick, defs,
+                                         max_ops=3 if ctx.quick else 6))
+        if rng.random() < 0.2:
             objs.append(rng.choice(objs))  # the same object serialised a second time
         order = list(range(len(objs)))
         rng.shuffle(order)
-        order += rng.sample(order, rng.randint(1, 2))  # second reading of a text already read
+        order.append(rng.choice(order))  # second reading of a text already read
         flat = [c for o in objs for c in (o if isinstance(o, list) else [o])]
         ctx.describe(f"history via {how}, read order {order}: " + " || ".join(
             "[" + " | ".join(describe_circuit(c) for c in o) + "]" if isinstance(o, list) else describe_circuit(o)
